@@ -43,7 +43,11 @@ TRUSTED = ["difflib.SequenceMatcher opcodes are an oracle: copy clause proved fo
            "are covered by the direct oracle only; Python == / numpy.array_equal + equal shape is the oracle there; failing cases carry a pickle of the inputs so that tzinfo, "
            "memory layout and shared containers survive the replay",
            "values are tree-shaped (fresh containers), floats are half-integers, no bytes dict keys (finding F5)",
-           "cache_size / max_passes are not in the model (ordered mode never consults them): inertness is checked on the implementation"]
+           "cache_size / max_passes are not in the model (ordered mode never consults them): inertness is checked on the implementation",
+           "source tie (second tie, in addition to the correspondence): harness/translate/diffdispatch.py (fail-closed ast -> Gallina translator, its rules D/D2/D3/O/S1-S4/T/T2/H "
+           "listed in coq/theories/Diff/NOTES_srctie.md) and the Python-level primitives of Diff/DiffSrcPrims.v are trusted for the translated fragment of deepdiff/diff.py only "
+           "(dispatcher, leaf comparers, _diff_dict, sequence comparers in default-options form); coq/srctie/DiffGenEquiv.v proves the regenerated definitions equal to "
+           "Diff/DiffModel.v on every run (g_run_eq) and restates C02_copy_empty / C02_empty_sound / C02_empty_sound_public about them"]
 ASSUMPTIONS = ["threshold_to_diff_deeper <= 1", "dict/set inputs satisfy Python's representation invariant (keys / members pairwise !=)",
                "soundness: ignore_private_variables=False, or no dict key starting with '__' (documented: such keys are not compared)",
                "soundness: the item hash is injective on the set members of the inputs; for the DeepHash scalar model: set members tag_safe (no str 'NONE' / containing ':'), "
@@ -471,14 +475,14 @@ def gen_shared_pairs(ctx, n):
     return [(a, b, "shared_sibling_containers", False) for a, b in out]
 
 
-def small_pairs(ctx, n):
+def small_pairs(ctx, n, big=None):
     u = V.small_universe(atoms=(None, True, 1, 1.0, "a", "NONE"), maxlen=2, depth=1, kinds="LTDS")
     u += [frozenset(x) for x in u if isinstance(x, set)]
     ctx.count("small_universe_values", len(u))
     pairs = [(a, b) for a in u for b in u]
     # all 599^2 ordered pairs x 6+ configurations do not fit the time budget: a seeded sample
     # (20x larger in thorough)
-    pairs = ctx.rng.sample(pairs, n * 20 if ctx.thorough else n)
+    pairs = ctx.rng.sample(pairs, n * 20 if (ctx.thorough if big is None else big) else n)
     return [(a, b, "small_universe", False) for a, b in pairs]
 
 
@@ -861,9 +865,165 @@ def replay_witnesses(ctx):
         run_cfg(ctx, {"NONE"}, {None}, dict(view="text", verbose_level=1), False, False, "witness")
 
 
+# ---------------------------------------------------------------------------
+# source tie (second tie between model and code): harness/translate/diffdispatch.py regenerates the dispatcher
+# DeepDiff._diff and the comparers _diff_booleans / _diff_numbers / _diff_types / _diff_str / _diff_set / _diff_tuple /
+# _diff_iterable / _diff_dict / _report_result and the sequence comparers (_diff_iterable_in_order, the pairwise pass, the difflib
+# opcode replay) from the CURRENT deepdiff/diff.py as Gallina text (DDGen.DiffGen);
+# coq/srctie/DiffGenEquiv.v proves them equal to Diff/DiffModel.v (g_run_eq) and restates C02's theorems about them
+# ---------------------------------------------------------------------------
+
+SOURCE_TIES = [{"name": "diffdispatch", "translator": "diffdispatch", "gen_module": "DiffGen", "equiv": ["DiffGenEquiv"],
+                "needs": ["Diff.DiffSrcPrims", "Diff.DiffEmpty", "Diff.DiffSpecProofs", "Diff.DiffFaithful", "Properties.C02"],
+                "sources": ["deepdiff/diff.py", "deepdiff/helper.py"],
+                "fragment": "DeepDiff._diff (dispatcher), _report_result, _diff_booleans, _diff_numbers, _diff_types, _diff_str, _diff_set, "
+                            "_diff_tuple, _diff_iterable, _diff_dict, _diff_iterable_in_order, _diff_by_forming_pairs_and_comparing_one_by_one, "
+                            "_get_matching_pairs, _compare_in_order, _diff_ordered_iterable_by_difflib in their default-options form"}]
+
+TIE_STATE = {"decided": False}
+TIE_CFGS = [(False, 0.33, True), (True, 0, True), (False, 1, False), (True, 0.9, False), (False, 0, True)]
+
+
+def tie_universe():
+    """the small exhaustive universe of the generated-vs-hand comparison: values of depth <= 2 over 13 atoms"""
+    A = [None, True, 1, 1.0, 2, "a", "b", "a\nb", "a\nc", b"a", b"a\nb", b"\xff", "__p"]
+    A6 = [None, True, 1, 1.0, "a", "a\nb"]
+    u = list(A)
+    u += [[]] + [[x] for x in A6] + [[x, y] for x in A6 for y in A6]
+    u += [()] + [(x,) for x in A6] + [(1, "a"), ("a", 1), (1, 2), (2, 1)]
+    u += [{}] + [{k: v} for k in (1, "a", "__p", True) for v in (1, 2, "a")]
+    u += [{"a": 1, "b": 2}, {"b": 2, "a": 1}, {"a": 1, "b": 3}, {"a": 1, 1: 2}, {"b": 1, "c": 2}, {"a": 1, "__p": 2}, {"a": 1, "__p": 3},
+          {"a": 1, "b": 2, "c": 3}, {"c": 3, "d": 4, "a": 1}, {1: 1, 2: 2}, {1.0: 1, "a": 2}]
+    S4 = [None, 1, "a", 2]
+    u += [set()] + [{x} for x in S4] + [{x, y} for i, x in enumerate(S4) for y in S4[i + 1:]] + [{1.0}, {"NONE"}, {True}]
+    u += [frozenset()] + [frozenset({x}) for x in S4] + [frozenset({1, "a"}), frozenset({None, 2})]
+    # longer all-atom sequences: the shapes on which the difflib pass and the pairwise pass differ (insert / delete / move / replace)
+    u += [[1, 2, "a"], [1, "a", 2], [2, 1, "a"], ["a", 1, 2], [1, 2, "a", None], [2, "a", None, 1], [1, 1, 2], [1, 2, 2], [None, 1, 2, "a"],
+          [1, 2, 3, "a", None], [1, 3, "a", None], [1, 2, "b", "a", None], [3, "a", None, 1, 2], [1, 1.0, True], (1, 2, "a"), (2, 1, "a"), (1, "a")]
+    u += [[[1]], [[1], [2]], [[1, 2]], [[2, 1]], [{"a": 1}], [{"a": 2}], [{1}], [{2}], {"a": [1]}, {"a": [1, 2]}, {"a": [2]}, {"a": {"b": 1}},
+          {"a": {"b": 2}}, {"a": {1}}, {"a": {2}}, ([1],), ([2],), [(1,)], [(1,), 1], {"a": (1, 2)}, {"a": {"b": 1}, "c": 1}]
+    return u
+
+
+def _tie_pairs():
+    u = tie_universe()
+    out = []
+    for i, a in enumerate(u):
+        for j, b in enumerate(u):
+            if type(a) is type(b) or (i * 31 + j) % 7 == 0:
+                out.append((a, b))
+    return out
+
+
+def _tie_expr(t1, t2, zip_, thr, ip):
+    """(generated, hand): the complete result (reported levels + recorded opcode paths, sorted) of the fuel-closed generated
+    _diff and of DiffModel.diff on one pair, same oracles"""
+    env = "(tbl_udiff %s) (tbl_ops %s) no_paths no_paths" % (D.coq_udiff_table(D.udiff_table(t1, t2)), D.coq_ops_table(D.opcode_table(t1, t2)))
+    cfg = D.coq_cfg(zip_, thr, ip)
+    a, b = V.to_coq(t1), V.to_coq(t2)
+    gen = "sx_tree (g_run (mkEnv hatom_deep %s false %s) 8 (mkLevel (Some %s) (Some %s) [] [] None))" % (env, cfg, a, b)
+    hand = "sx_tree (diff hatom_deep %s %s %s %s [] [])" % (env, cfg, a, b)
+    return gen, hand
+
+
+def tie_search(ctx, rec, cfgs=None):
+    """Evaluate the fuel-closed generated _diff against DiffModel.diff inside Coq on the small exhaustive universe.
+    Returns (what was searched, the differing jobs (t1, t2, (zip, thr, ip)) smallest first)."""
+    import os
+    import re as _re
+    from concurrent.futures import ThreadPoolExecutor
+    gen_dir = os.path.join(ctx.scratch, "srctie")
+    if rec.get("status") in ("translator-rejected", "generated-model-does-not-compile") or not os.path.exists(os.path.join(gen_dir, "DiffGen.vo")):
+        return {"searched": "nothing inside Coq (no compiled generated model: %s); run() escalates the model streams to thorough size" % rec.get("status")}, []
+    hdr = D.MODEL_HDR + "\nFrom DD Require Import Diff.DiffSrcPrims."
+    ctx.ensure_built(hdr)
+    jobs = []
+    for n, (a, b) in enumerate(_tie_pairs()):
+        for cfg in (cfgs or (TIE_CFGS[0], TIE_CFGS[1 + n % 4])):
+            jobs.append((a, b, cfg))
+    shard = max(1, (len(jobs) + 15) // 16)
+    files = []
+    for k in range(0, len(jobs), shard):
+        fn = os.path.join(ctx.scratch, "tie_cases_%d.v" % (k // shard))
+        with open(fn, "w") as f:
+            f.write("From Coq Require Import List String ZArith NArith Bool.\nImport ListNotations.\nFrom DD Require Import Base.Sx.\n" + hdr +
+                    "\nFrom DDGen Require Import DiffGen.\nLocal Open Scope string_scope.\nDefinition cases : list (sx * sx) := [\n")
+            f.write(";\n".join("(%s,\n %s)" % _tie_expr(a, b, *cfg) for (a, b, cfg) in jobs[k:k + shard]))
+            f.write("\n].\nEval vm_compute in run_cases cases.\n")
+        files.append((k, fn))
+
+    def one(kf):
+        return core.sh(["coqc", "-Q", core.THEORIES, "DD", "-Q", gen_dir, "DDGen", kf[1]], timeout=900, cwd=ctx.scratch)
+    with ThreadPoolExecutor(max_workers=core.NCPU) as ex:
+        results = list(ex.map(one, files))
+    differing, errors = [], []
+    for (k, fn), (rc, out) in zip(files, results):
+        m = _re.search(r'"BEGIN\n(.*)END"', out, _re.S)
+        if rc != 0 or not m:
+            errors.append(out[-400:])
+            continue
+        for line in m.group(1).splitlines():
+            if line.strip():
+                differing.append(jobs[k + int(line.partition("\t")[0])])
+    res = {"searched": "%d evaluations (generated g_run vs DiffModel.diff, complete sorted result) on %d pairs of the small universe (%d values)"
+                       % (len(jobs), len(_tie_pairs()), len(tie_universe())),
+           "differing": len(differing), "coq_errors": errors[:2]}
+    differing.sort(key=lambda j: len(repr(j[0])) + len(repr(j[1])))
+    return res, differing
+
+
+def tie_select(differing):
+    """the smallest differing pairs, at most 3 per type of t1 (the comparers are per type), at most 15 in all"""
+    seenp, per_type, out = set(), {}, []
+    for (a, b, cfg) in differing:
+        key = (repr(a), repr(b))
+        if key in seenp:
+            continue
+        per_type[type(a).__name__] = per_type.get(type(a).__name__, 0) + 1
+        if per_type[type(a).__name__] > 3:
+            continue
+        seenp.add(key)
+        out.append((a, b, cfg))
+        if len(out) >= 15:
+            break
+    return out
+
+
+def on_source_tie_break(ctx, name, rec):
+    """The generated model no longer equals the hand-written one (or could not be generated).  Search for a concrete pair on
+    which the two differ (both evaluated inside Coq on the small exhaustive universe), then judge that pair like any
+    generated case: direct oracle on the full configuration grid + correspondence of the hand model with the implementation."""
+    if name != "diffdispatch":
+        return {"searched": "nothing (unknown tie)"}
+    res, differing = tie_search(ctx, rec)
+    if not differing:
+        return res
+    judged = []
+    cases, mcases = [], []
+    f0, b0 = len(ctx.failures), len(ctx.breaks)
+    for (a, b, cfg) in tie_select(differing):
+        t1, t2 = stable_order(a), stable_order(b)
+        is_copy = snap(t1) == snap(t2)
+        ctx.count("gen:source_tie_differing_pair")
+        oracle_pair(ctx, t1, t2, is_copy, full_grid=True, stats_key="verdict_tie")
+        corr_pair(ctx, t1, t2, cases, every=True, mcases=mcases)
+        judged.append({"t1": repr(a), "t2": repr(b), "first_cfg(zip,thr,ip)": list(cfg)})
+    ctx.coq_cases("c02tie", D.MODEL_HDR, cases, shard=150, label="source_tie_differing_pairs")
+    ctx.coq_cases("c02tiem", D.MODEL_HDR_M, mcases, shard=150, label="source_tie_differing_pairs_memo")
+    res["first_differing"] = judged
+    res["judged"] = {"new_oracle_failures": len(ctx.failures) - f0, "new_breaks": len(ctx.breaks) - b0, "known_findings_seen": sorted(ctx.known_seen)}
+    if len(ctx.failures) > f0 or len(ctx.breaks) > b0:
+        TIE_STATE["decided"] = True          # a concrete pair was found and judged: no need to escalate the random streams
+    return res
+
+
 def run(ctx):
-    n_values = 1100 if ctx.thorough else 130
-    pairs = gen_model_pairs(ctx, n_values) + small_pairs(ctx, 450) + gen_alias_pairs(ctx, 3000 if ctx.thorough else 250) + gen_shared_pairs(ctx, 1500 if ctx.thorough else 260)
+    # a source tie that is not intact escalates the streams that exercise the translated fragment to thorough size
+    big = ctx.thorough or (ctx.tie_broken("diffdispatch") and not TIE_STATE["decided"])
+    if big and not ctx.thorough:
+        ctx.count("escalated_by_broken_source_tie")
+    n_values = 1100 if big else 130
+    pairs = gen_model_pairs(ctx, n_values) + small_pairs(ctx, 450, big) + gen_alias_pairs(ctx, 3000 if big else 250) + gen_shared_pairs(ctx, 1500 if big else 260)
     cases, vcases, mcases = [], [], []
     pairs = [(stable_order(t1), stable_order(t2), kind, is_copy) for (t1, t2, kind, is_copy) in pairs]
     for i, (t1, t2, kind, is_copy) in enumerate(pairs):
